@@ -443,7 +443,22 @@ def _schemas():
         address: Word
         valid: 1
         data: BMat
-    return {'Byte': Byte, 'Odd': Odd, 'Pixel': Pixel, 'Word': Word, 'Arr2': Arr2, 'BMat': BMat, 'Line': Line, 'Deep': Deep,
+
+    # components named like attributes and methods of the WireVector the struct wraps: the component wins
+    @pyrtl.wire_struct
+    class Attr:
+        bitmask: 4
+        bitwidth: 3
+        truncate: 2
+        nand: 1
+        sign_extended: 2
+
+    @pyrtl.wire_struct
+    class Nest:
+        next: Attr
+        msb: 1
+        _name: Byte
+    return {'Attr': Attr, 'Nest': Nest, 'Byte': Byte, 'Odd': Odd, 'Pixel': Pixel, 'Word': Word, 'Arr2': Arr2, 'BMat': BMat, 'Line': Line, 'Deep': Deep,
             'Oct': Oct, 'Flat12': Flat12, 'Flat6': Flat6, 'ByteM': ByteM, 'OctM': OctM}
 
 
@@ -462,6 +477,8 @@ LAYOUT = {
     'Flat6': ('matrix', 6, 3),
     'ByteM': ('matrix', 'Byte', 2),
     'OctM': ('matrix', 'Oct', 2),
+    'Attr': ('struct', [('bitmask', 4), ('bitwidth', 3), ('truncate', 2), ('nand', 1), ('sign_extended', 2)]),
+    'Nest': ('struct', [('next', 'Attr'), ('msb', 1), ('_name', 'Byte')]),
 }
 
 
